@@ -19,6 +19,8 @@ func (i *interpreter) globalSpecial(g *ssa.Global) (value, bool) {
 				return *i.global(fg), true
 			}
 		}
+	case "net/http.ErrServerClosed":
+		return i.newError("http: Server closed", nil), true
 	case "os.Args":
 		return []value{"verif"}, true
 	case "time.UTC", "time.Local":
